@@ -6,7 +6,7 @@
 ID=$1; TIER=${2:-quick}; SECS=${3:-120}
 S=/verif/seeded/$ID
 PROP=${4:-$(jq -r .property $S/meta.json)}
-WT=/tmp/wt-eval
+WT=${EVAL_WT:-/tmp/wt-eval}
 OUT=/tmp/mutout/$ID-$PROP
 [ -d $WT ] || git -C /repo worktree add -q --detach $WT HEAD || exit 2
 ON=$(git -C /repo rev-parse HEAD)
